@@ -19,6 +19,7 @@ from .values import (
     Const,
     DictVal,
     EnumVal,
+    FuncVal,
     Event,
     Obj,
     SeqVal,
@@ -529,7 +530,22 @@ def wrapper_traces(pm: ProtocolModel, *, faults: bool = True, event_mode: str = 
     outer = prog.func("execution", "durable_execution")
     outcomes = list(outcomes) if outcomes else wrapper_result_outcomes(prog)
 
+    def hook_submit(it, recv, args, kwargs, node):
+        # two things are submitted to the handler pool: the background checkpoint loop and the user's handler
+        if isinstance(recv, Sym) and args:
+            tgt = args[0]
+            name = tgt.fn.name if isinstance(tgt, FuncVal) else tgt.key()
+            if "checkpoint_batches_forever" in name:
+                it.emit("BG_START", node)
+                return Sym("background.submit()", TypeRef(prim="ext:concurrent.futures.Future"))
+        return NotImplemented
+
     def hook_result(it, recv, args, kwargs, node):
+        if isinstance(recv, Sym) and recv.k.startswith("background.submit()"):
+            # waiting for the checkpoint loop to end: it returns once it was told to stop (its failures are stored, not raised)
+            stopped = any(e.kind == "EXT" and e.data["method"] == "set" and "stop_checkpointing" in e.site for e in it.events)
+            it.emit("BG_JOIN", node, after_stop=stopped)
+            return NONE
         if not (isinstance(recv, Sym) and ".submit()" in recv.k):
             return NotImplemented
         n = sum(1 for e in it.events if e.kind == "RESULT") + 1
@@ -564,8 +580,20 @@ def wrapper_traces(pm: ProtocolModel, *, faults: bool = True, event_mode: str = 
         prog.func("execution", "InitialExecutionState.get_input_payload").fq: hook_payload,
     }
 
+    rif = pm.state_cls.methods.get("raise_if_checkpointing_failed")
+    if rif is not None:
+        def hook_failcheck(it, fn, sv, a, k, n):
+            ev = it.emit("FAILCHECK", n)
+            opts = ["ok", BTE_FQ] if faults else ["ok"]
+            c = it.decide(f"failure-state#{sum(1 for e in it.events if e.kind == 'FAILCHECK')}", len(opts), [short(o) for o in opts])
+            ev.data["outcome"] = opts[c]
+            if c:
+                raise _Raise(it.make_exc(BTE_FQ, "stored-failure"), it.site(n))
+            return NONE
+        extra[rif.fq] = hook_failcheck
+
     cfg = pm.make_config(faults=faults, user_raises={}, extra_hooks=extra)
-    cfg.ext_method_hooks = {"result": hook_result}
+    cfg.ext_method_hooks = {"result": hook_result, "submit": hook_submit}
     cfg.ext_calls["json.dumps"] = hook_dumps
     cfg.ext_calls["json.loads"] = lambda it, a, k, n: Sym("json.loads()", None)
 
